@@ -47,6 +47,7 @@ func runC20(w *World, r *Report) {
 	ruleGenSafe(w, r, gen, helper, execOp)
 	ruleGenForm(w, r, gen, execOp)
 	ruleGenVars(w, r)
+	ruleGenOpt(w, r)
 }
 
 // ruleGenForm: what GenerateRandomExpr returns is a parenthesised expression
@@ -595,7 +596,7 @@ func ruleGenSafe(w *World, r *Report, gen, helper, execOp *ssa.Function) {
 	r.Check(naryOK, rule, w.Pos(helper.Pos()), name, "n-ary node: Res = execOp(op, childRes...)", "computed with the very operator that is rendered into the text", "the operator evaluated differs from the operator rendered")
 }
 
-var c20Witnesses = []Witness{
+var c20Witnesses = append(wave3WitnessesC20, []Witness{
 	{Name: "execop-dne-before-shortcuts", Rule: "R-EXECOP", Edits: []Edit{
 		{File: "util.go", Old: "			switch {\n			case op == \"and\" && contains(param, false):\n				return false\n			case op == \"or\" && contains(param, true):\n				return true\n			case contains(param, DNE):\n				return DNE\n			}", New: "			switch {\n			case contains(param, DNE):\n				return DNE\n			case op == \"and\" && contains(param, false):\n				return false\n			case op == \"or\" && contains(param, true):\n				return true\n			}"}}},
 	{Name: "execop-or-shortcut-on-false", Rule: "R-EXECOP", Edits: []Edit{
@@ -618,4 +619,4 @@ var c20Witnesses = []Witness{
 		{File: "util.go", Old: "				v = UnifyType(v)\n				switch v.(type) {", New: "				switch UnifyType(v).(type) {"}}},
 	{Name: "benign-execop-if-chain", Benign: true, Edits: []Edit{
 		{File: "util.go", Old: "			switch {\n			case op == \"and\" && contains(param, false):\n				return false\n			case op == \"or\" && contains(param, true):\n				return true\n			case contains(param, DNE):\n				return DNE\n			}", New: "			if op == \"and\" && contains(param, false) {\n				return false\n			}\n			if op == \"or\" && contains(param, true) {\n				return true\n			}\n			if contains(param, DNE) {\n				return DNE\n			}"}}},
-}
+}...)
